@@ -1,16 +1,21 @@
 #!/usr/bin/env python3
-"""Prints the markdown table of seeded changes and observed outcomes (for DESIGN.md section 10)."""
+"""Prints DESIGN.md section 10 (seeded changes and observed outcomes) from seeded/*/meta.json."""
 import json, os, glob, re
 V = os.path.dirname(os.path.dirname(os.path.abspath(__file__)))
-rows = []
+rows, hist = [], []
 for d in sorted(glob.glob(os.path.join(V, "seeded", "*"))):
     m = json.load(open(os.path.join(d, "meta.json")))
     patch = open(os.path.join(d, "patch.diff")).read()
     files = sorted(set(re.findall(r"^\+\+\+ b/(\S+)", patch, re.M)))
-    funcs = sorted(set(re.findall(r"^@@.*@@ .*?(\w+)\(", patch, re.M)))
+    funcs = [f for f in dict.fromkeys(re.findall(r"^@@.*@@ .*?(\w+)\(", patch, re.M))]
     res = []
     for c, r in sorted(m.get("results", {}).items()):
-        res.append("%s: %s" % (c, "caught (%d)" % r["violations"] if r["exit"] == 1 else ("missed" if r["exit"] == 0 else "broken")))
-    rows.append("| %s | %s | %s | %s | %s |" % (os.path.basename(d), m["property"], ", ".join(files) + " (" + ", ".join(funcs[:2]) + ")", m.get("summary", ""), "; ".join(res)))
-print("| change | property | where | what it does | quick checks |\n|---|---|---|---|---|")
+        res.append("%s %s" % (c, "caught" if r["exit"] == 1 else ("missed" if r["exit"] == 0 else "broken run")))
+    name = os.path.basename(d)
+    rows.append("| %s | %s | `%s` %s | %s | %s |" % (name, m["property"], ", ".join(f.replace("src/", "") for f in files), ("(" + ", ".join(funcs[:2]) + ")") if funcs else "", m.get("summary", ""), "; ".join(res)))
+    if m.get("history"):
+        hist.append("* **%s** — %s" % (name, m["history"]))
+print("| change | property | where | what it does | outcome of the quick checks (final machinery) |\n|---|---|---|---|---|")
 print("\n".join(rows))
+print()
+print("\n".join(hist))
